@@ -222,7 +222,6 @@ func (fr *frame) binop(x *ssa.BinOp, st *State) *Val {
 		case token.ADD:
 			return fr.concat(a, b, st, x)
 		case token.LSS, token.LEQ, token.GTR, token.GEQ:
-			fr.vc.declareFun("strcmp", []Sort{"SV", "SV"}, SInt)
 			c := App("strcmp", SInt, App("sv", "SV", a.T), App("sv", "SV", b.T))
 			op := map[token.Token]string{token.LSS: "<", token.LEQ: "<=", token.GTR: ">", token.GEQ: ">="}[x.Op]
 			return &Val{T: cmpInt(op, c, IntLit(0)), Ty: boolT}
